@@ -106,7 +106,7 @@ def on_extent(p, r, exc, acc):
 
 # ------------------------------------------------------------------ (b) composition of the pipeline
 CONCRETE_FILTERS = ["n", "h", "trim", "entity", "str", "unicode", "decode.utf8", "ff", "gg(1)", "ns.ff(aa, bb)", "gg((-2) ** 2)"]
-DEFAULTS = [None, [], ["str"], ["ff"], ["ff", "h"]]          # None = not configured -> ['str']
+DEFAULTS = [None, [], ["str"], ["ff"], ["ff", "h"], ("ff",)]          # None = not configured -> ['str']
 PAGE = [None, [], ["h"], ["n"], ["gg(1)", "n"], ["ff", "trim"]]
 TABLE = {"x": "filters.xml_escape", "h": "filters.html_escape", "u": "filters.url_escape", "trim": "filters.trim",
          "entity": "filters.html_entities_escape", "unicode": "str", "str": "str", "decode": "decode"}
@@ -130,11 +130,14 @@ def h_compose(nlocal):
         is_expr = bool(p.choose(2, "is_expression"))
         compiler = types.SimpleNamespace(
             pagetag=None if pg is None else types.SimpleNamespace(filter_args=types.SimpleNamespace(args=list(pg))),
-            default_filters=["str"] if d is None else list(d))
+            default_filters=["str"] if d is None else d)
         gen = CG._GenerateRenderMethod.__new__(CG._GenerateRenderMethod)
         gen.compiler = compiler
-        out = gen.create_filter_callable(list(local), "X", is_expr)
-        return dict(local=local, d=d, pg=pg, is_expr=is_expr, out=out)
+        try:
+            out, err = gen.create_filter_callable(list(local), "X", is_expr), None
+        except Exception as e:
+            out, err = None, e
+        return dict(local=local, d=d, pg=pg, is_expr=is_expr, out=out, err=err)
     return h
 
 
@@ -179,9 +182,14 @@ def on_compose(p, r, exc, acc):
         acc.candidate(kind="compose-exception", input=None, detail="%s: %s" % (type(exc).__name__, str(exc)[:150]))
         return
     acc.tags["asserted"] += 1
+    m = p.witness()
+    if r.get("err") is not None:
+        acc.vcs += 1
+        acc.candidate(kind="pipeline-render", input=dict(local=[conc(f, m) for f in r["local"]], default_filters=r["d"], page_expression_filter=r["pg"], is_expression=True),
+                      detail="the code generator raised %s: %s" % (type(r["err"]).__name__, r["err"]))
+        return
     exp = ref_compose(p, r["local"], r["d"], r["pg"], r["is_expr"])
     out = lift(r["out"])
-    m = p.witness()
     cfg = lambda mod: dict(local=[conc(f, mod) for f in r["local"]], default_filters=r["d"], page_expression_filter=r["pg"], is_expression=r["is_expr"])
     acc.vcs += 1
     oc, ec = out.concrete_or_none(), exp.concrete_or_none()
